@@ -173,7 +173,7 @@ func truncToUint64(v float64) uint64 { return uint64(v) }
 //@   safe [C05]
 
 //@ func (*Iter).AdvanceInto variant anytape
-//@   props C05 C19
+//@   props C05 C19 C13
 //@   requires iterOK(i)
 //@   ensures inv: iterOK(i)
 //@   ensures progress: i.off >= old(i.off)+old(i.addNext) && implies(result != TagEnd, i.off > old(i.off)+old(i.addNext) && i.off <= len(i.tape.Tape)) && implies(old(i.off)+old(i.addNext) >= len(i.tape.Tape), result == TagEnd)
@@ -195,7 +195,7 @@ func truncToUint64(v float64) uint64 { return uint64(v) }
 //@   safe [C05]
 
 //@ func (*Iter).Advance variant anytape
-//@   props C05 C19
+//@   props C05 C19 C13
 //@   requires iterOK(i)
 //@   ensures inv: iterOK(i)
 //@   invariant 0 0 <= i.off && i.off <= 1<<57
@@ -217,7 +217,7 @@ func truncToUint64(v float64) uint64 { return uint64(v) }
 //@   safe [C05]
 
 //@ func (*Iter).AdvanceIter variant anytape
-//@   props C05 C19
+//@   props C05 C19 C13
 //@   requires iterOK(i)
 //@   ensures inv: implies(result1 == nil, iterOK(i)) && implies(result1 == nil && result0 != TypeNone, iterOK(dst))
 //@   invariant 0 0 <= i.off && i.off <= 1<<57 && old(i.off)+old(i.addNext) <= i.off && len(i.tape.Tape) == len(old(i.tape.Tape))
@@ -248,7 +248,7 @@ func truncToUint64(v float64) uint64 { return uint64(v) }
 //@   safe [C05]
 
 //@ func (*Iter).PeekNext variant anytape
-//@   props C05 C19
+//@   props C05 C19 C13
 //@   requires iterOK(i)
 //@   invariant 0 0 <= off && off <= 1<<57
 //@   decreases 0 len(i.tape.Tape) - off
@@ -266,7 +266,7 @@ func truncToUint64(v float64) uint64 { return uint64(v) }
 //@   safe [C05]
 
 //@ func (*Iter).PeekNextTag variant anytape
-//@   props C05 C19
+//@   props C05 C19 C13
 //@   requires iterOK(i)
 //@   invariant 0 0 <= off && off <= 1<<57
 //@   invariant 0 direct: implies(off != i.off+i.addNext, i.off+i.addNext < len(i.tape.Tape) && tagOf(i.tape.Tape[i.off+i.addNext]) == TagNop)
